@@ -303,15 +303,16 @@ func (g *progGen) program(depth int) (MalType, []string) {
 		case 1:
 			// counting loop, tail recursive
 			n := "loop" + string(rune('a'+i))
-			body := call1("if", call1("<", sy("n"), 1), sy("acc"),
-				call1(n, call1("-", sy("n"), 1), call1("+", sy("acc"), g.maybeTrace(sy("n")))))
+			// (the iteration count is clamped so that every generated program stays short)
+			body := call1("if", call1("<", sy("n"), 1), sy("acc"), call1("if", call1(">", sy("n"), 60), sy("acc"),
+				call1(n, call1("-", sy("n"), 1), call1("+", sy("acc"), g.maybeTrace(sy("n"))))))
 			forms = append(forms, ls(sy("def"), sy(n), ls(sy("fn"), vc(sy("n"), sy("acc")), body)))
 			sc = sc.withFn(fnInfo{name: n, arity: 2, returns: tInt})
 		case 2:
 			// non-tail recursion (fib-like, small)
 			n := "rec" + string(rune('a'+i))
-			body := call1("if", call1("<", sy("n"), 2), sy("n"),
-				call1("+", call1(n, call1("-", sy("n"), 1)), call1(n, call1("-", sy("n"), 2))))
+			body := call1("if", call1("<", sy("n"), 2), sy("n"), call1("if", call1(">", sy("n"), 9), 0,
+				call1("+", call1(n, call1("-", sy("n"), 1)), call1(n, call1("-", sy("n"), 2)))))
 			forms = append(forms, ls(sy("def"), sy(n), ls(sy("fn"), vc(sy("n")), body)))
 			sc = sc.withFn(fnInfo{name: n, arity: 1, returns: tInt})
 		default:
@@ -328,6 +329,30 @@ func (g *progGen) program(depth int) (MalType, []string) {
 			forms = append(forms, ls(sy("def"), sy(n), ls(sy("fn"), vc(params...), g.expr(rt, depth-1, sc2))))
 			sc = sc.withFn(fnInfo{name: n, arity: k, returns: rt})
 		}
+	}
+	// a def executed inside a function body, a zero-parameter thunk or a let body binds in that scope only:
+	// the global of the same name (if any) must be unchanged afterwards
+	if r.chance(1, 3) {
+		target := "ga"
+		if len(names) > 0 {
+			target = names[r.intn(len(names))]
+		} else {
+			forms = append(forms, ls(sy("def"), sy("ga"), g.intLit()))
+			sc = sc.withVar("ga", tInt)
+			names = append(names, "ga")
+		}
+		inner := ls(sy("def"), sy(target), g.expr(tInt, 2, sc))
+		switch r.intn(4) {
+		case 0:
+			forms = append(forms, ls(sy("def"), sy("thunk"), ls(sy("fn"), vc(), inner, call1("trace!", sy(target)))), ls(sy("thunk")))
+		case 1:
+			forms = append(forms, ls(ls(sy("fn"), vc(), ls(sy("do"), inner, sy(target)))))
+		case 2:
+			forms = append(forms, ls(sy("let"), vc(), inner, call1("trace!", sy(target))))
+		default:
+			forms = append(forms, ls(ls(sy("fn"), vc(sy("q")), inner, call1("+", sy("q"), sy(target))), g.intLit()))
+		}
+		forms = append(forms, call1("trace!", sy(target)))
 	}
 	forms = append(forms, g.expr(tAny, depth, sc))
 	return List{Val: forms}, names
